@@ -33,6 +33,8 @@ def make_builtins(interp):
 
     @_b("len")
     def len_(interp, v):
+        if type(v).__name__ in ("OpenDict", "OpenItems"):
+            raise Unsupported("len() of a dict of unknown size (open dict)")
         if isinstance(v, BytesV):
             return ops.rope_len(v.rope)
         if isinstance(v, (PyList, PyDeque, PySet)):
